@@ -99,11 +99,15 @@ theorem rocAt_spec (thr : Rat) (xs : List V) (ts : List Int) (i : Nat)
     domain (strictly increasing time axis) for every non-negative threshold; mismatched lengths
     are rejected with ValueError. -/
 theorem C10_roc (inp : List V) (ts : List Int) (thr : Rat)
-    (h : (TestCall.roc inp ts thr).inDom = true) (hthr : 0 ≤ thr) :
+    (h : (TestCall.roc inp ts thr).inDom = true) :
     conforms (rocSpec inp ts thr) (rocTest inp ts thr).toObs = true := by
+  have hthr : 0 ≤ thr := by
+    simp only [TestCall.inDom, Bool.and_eq_true, decide_eq_true_eq] at h; exact h.2
   unfold rocSpec rocTest
   by_cases hl : inp.length = ts.length
-  · have hinc : increasing ts = true := by simpa [TestCall.inDom, hl] using h
+  · have hinc : increasing ts = true := by
+      simp only [TestCall.inDom, Bool.and_eq_true, decide_eq_true_eq] at h
+      simpa [hl] using h.1
     simp only [hl, bne_self_eq_false, Bool.false_eq_true, ↓reduceIte, pure, Except.pure]
     rw [← hl]
     apply conforms_flags_range
@@ -121,8 +125,8 @@ theorem C10_roc_pointwise (inp : List V) (ts : List Int) (thr : Rat)
     rocAt thr inp ts i ∈ rocSpecAt thr inp ts i :=
   rocAt_spec thr inp ts i (by omega) (fun h0 => elapsed_pos ts hinc i h0 (by omega))
 
-/-- Why `0 ≤ thr` is needed: in the domain, but the first point is flagged SUSPECT. -/
-example : (TestCall.roc [some 0] [0] (-1)).inDom = true ∧
+/-- Why `0 ≤ thr` is part of the domain: with a negative threshold the first point is SUSPECT. -/
+example : (TestCall.roc [some 0] [0] (-1)).inDom = false ∧
     (rocTest [some 0] [0] (-1)).toObs = .flags [3] ∧
     conforms (rocSpec [some 0] [0] (-1)) (rocTest [some 0] [0] (-1)).toObs = false := by
   decide +kernel
@@ -296,10 +300,10 @@ theorem C10_speed_of_missing_hop (lon lat : List V) (ts : List Int) (sus fail : 
     given distances consistent with the positions (`hcons`: a hop with a missing coordinate at
     either end is missing — what the harness / the real code guarantees). -/
 theorem C10_speed (lon lat : List V) (ts : List Int) (sus fail : Rat) (hops : List V)
-    (h : (TestCall.speed lon lat ts sus fail hops).inDom = true)
-    (hcons : ∀ j, (getV lon j).isNone ∨ (getV lat j).isNone ∨ (getV lon (j + 1)).isNone ∨
-        (getV lat (j + 1)).isNone → getV hops j = none) :
+    (h : (TestCall.speed lon lat ts sus fail hops).inDom = true) :
     conforms (speedSpec lon lat ts sus fail hops) (speedTest lon lat ts sus fail hops).toObs = true := by
+  have hcons := hcons_of_consistent lon lat hops (by
+    simp only [TestCall.inDom, Bool.and_eq_true] at h; exact h.2)
   apply C10_speed_of_missing_hop _ _ _ _ _ _ h
   intro j hlo _
   exact hcons j (Or.inr (Or.inr (Or.inl (by simp [hlo]))))
@@ -307,7 +311,7 @@ theorem C10_speed (lon lat : List V) (ts : List Int) (sus fail : Rat) (hops : Li
 /-- Why `hcons` is needed: in the domain, but a distance is supplied for a hop into a position
     that has no coordinates; the model (like the code, had it that distance) flags FAIL where the
     property allows MISSING / UNKNOWN only. -/
-example : (TestCall.speed [some 0, none] [some 0, none] [0, 1] 1 2 [some 5]).inDom = true ∧
+example : (TestCall.speed [some 0, none] [some 0, none] [0, 1] 1 2 [some 5]).inDom = false ∧
     (speedTest [some 0, none] [some 0, none] [0, 1] 1 2 [some 5]).toObs = .flags [2, 4] ∧
     conforms (speedSpec [some 0, none] [some 0, none] [0, 1] 1 2 [some 5])
       (speedTest [some 0, none] [some 0, none] [0, 1] 1 2 [some 5]).toObs = false := by
